@@ -199,8 +199,20 @@ func checkC09(c *Ctx) {
 	}
 	c.Set("mc_bounds", "all import lists up to the bound over 2 names x 3 paths (one \"C\") x alias in {none, a, b, _, .}")
 	tr := &ndjson{}
-	// scenario programs
+	// scenario programs; each also with its import paths respelled (a raw string, an escape inside the
+	// interpreted string): the path of an import is the VALUE of the literal, not its text
+	var allScenarios []scenario
 	for _, sc := range scenarios {
+		allScenarios = append(allScenarios, sc)
+		for mode := 1; mode <= 2; mode++ {
+			if src := respellImports(sc.Src, mode); src != sc.Src {
+				v := sc
+				v.Name, v.Src = sc.Name+map[int]string{1: "|raw-import-paths", 2: "|escaped-import-paths"}[mode], src
+				allScenarios = append(allScenarios, v)
+			}
+		}
+	}
+	for _, sc := range allScenarios {
 		app := &memPkg{Import: "example.com/app", Path: "example.com/app", Files: map[string]string{"main.go": sc.Src, "other.go": appOther}}
 		u := newUniverse(append(libPackages(), app)...)
 		names := u.packageNames()
@@ -656,4 +668,32 @@ func c09Redecorate(c *Ctx) {
 			c.Fail(Finding{Sig: "redecorate-paths-differ", Input: key, What: fmt.Sprintf("first decoration %v, the restored *ast.File decorated again %v", want, got), Replay: obj{"kind": "none"}})
 		}
 	}
+}
+
+// respellImports rewrites the path literals of the import declarations: mode 1 as raw strings, mode 2 with
+// the first letter of the last path element written as a \x escape (and the first slash as \u002f).
+func respellImports(src string, mode int) string {
+	fset := token.NewFileSet()
+	af, err := parser.ParseFile(fset, "", src, parser.ImportsOnly)
+	if err != nil {
+		return src
+	}
+	out := src
+	for i := len(af.Imports) - 1; i >= 0; i-- {
+		is := af.Imports[i]
+		path, err := strconv.Unquote(is.Path.Value)
+		if err != nil || path == "C" || path == "" {
+			continue
+		}
+		lit := "`" + path + "`"
+		if mode == 2 {
+			j := strings.LastIndex(path, "/") + 1
+			esc := path[:j] + fmt.Sprintf("\\x%02x", path[j]) + path[j+1:]
+			esc = strings.Replace(esc, "/", "\\u002f", 1)
+			lit = "\"" + esc + "\""
+		}
+		from, to := fset.Position(is.Path.Pos()).Offset, fset.Position(is.Path.End()).Offset
+		out = out[:from] + lit + out[to:]
+	}
+	return out
 }
